@@ -28,7 +28,8 @@ EXPLANATION = ('Kernel of C11: uncrustify_end() empties the chunk list (loop clo
                'resets unc_off, al_cnt, did_newline, pp_level, changes, in_preproc, le_counts[*], preproc_ncnl_count, ifdef_over_whole_file, warned_unable_string_replace_tab_chars, '
                'unc_stage; its frame (assigns clause) shows it touches nothing else. A static check recomputes, on every run, the set W of cp_data_t fields written anywhere '
                'under src/ and requires each to be reset here, re-initialised at the start of every file, or on the reviewed list of fields without cross-file effect.')
-K = ['K1 uncrustify_end: reset set + frame', 'K2 do_source_file: with -l, cpd.lang_flags is the forced value at the start of every file (postcondition of do_source_file_contract)', 'K3 (static) every written cp_data_t field is classified: reset / per-file initialised / reviewed as harmless']
+K = ['K1 uncrustify_end: reset set + frame', 'K2 do_source_file: with -l, cpd.lang_flags is the forced value at the start of every file (postcondition of do_source_file_contract)',
+     'K2b do_source_file: init_keywords_for_language() has been run for the language of this file on every path that reaches uncrustify_file (precondition of uncrustify_file_contract)', 'K3 (static) every written cp_data_t field is classified: reset / per-file initialised / reviewed as harmless']
 G = ['start-of-file assignments (output_text: fout, did_newline, column; uncrustify_file: bom, enc, pass_count; do_source_file: filename, lang_flags unless forced) are read, not under contract',
      'cpd.last_char and cpd.spaces are not reset between files; harmless only if every file\'s output ends with a line break / without pending blanks (not proved)',
      'state outside cp_data_t (sorting.cpp caches, options_for_QT.cpp statics, keyword tables): NOT covered',
